@@ -809,4 +809,7 @@ def encode_events(ev):
         if isinstance(o, (np.bool_,)):
             return bool(o)
         return o
-    return enc(ev)
+    out = enc(ev)
+    if isinstance(out, dict):
+        out["top"] = top          # the code of +inf (one more than the largest finite rank)
+    return out
